@@ -168,6 +168,29 @@ theorem C14_id_parametric (nm nm' : Nat → String) (ρ μ : Nat → Nat) (t u :
   rw [ITerm.vars_abs]
   exact fun v hv w hw => hinj v (by simp [hv]) w (by simp [hw])
 
+/-- **C14_unify_parametric.**  Unification of id-level terms (atoms compared by id, bindings by
+    variable number) commutes with every renaming that is injective on the atoms and variables of
+    the two terms: the renamed problem is solvable (within the same fuel) iff the original one is,
+    and its solution is the renamed solution — for renamings `ρ' μ'` that agree with `ρ μ` on
+    everything the two terms mention (the solution mentions nothing else). -/
+theorem C14_unify_parametric (ρ μ : Nat → Nat) (fuel : Nat) (t u : ITerm)
+    (hρ : ∀ a ∈ t.atoms ++ u.atoms, ∀ b ∈ t.atoms ++ u.atoms, ρ a = ρ b → a = b)
+    (hμ : ∀ v ∈ t.vars ++ u.vars, ∀ w ∈ t.vars ++ u.vars, μ v = μ w → v = w) :
+    (ITerm.unify fuel (t.ren ρ μ) (u.ren ρ μ) []).isSome = (ITerm.unify fuel t u []).isSome ∧
+    ∃ ρ' μ' : Nat → Nat,
+      (∀ a ∈ t.atoms ++ u.atoms, ρ' a = ρ a) ∧ (∀ v ∈ t.vars ++ u.vars, μ' v = μ v) ∧
+      ITerm.unify fuel (t.ren ρ μ) (u.ren ρ μ) [] = (ITerm.unify fuel t u []).map (·.ren ρ' μ') := by
+  have key : ITerm.unify fuel (t.ren ρ μ) (u.ren ρ μ) [] =
+      (ITerm.unify fuel t u []).map (·.ren (extend ρ (t.atoms ++ u.atoms)) (extend μ (t.vars ++ u.vars))) := by
+    rw [ITerm.ren_congr ρ (extend ρ (t.atoms ++ u.atoms)) μ (extend μ (t.vars ++ u.vars)) t
+        (fun a ha => (extend_agrees ρ _ (by simp [ha])).symm)
+        (fun v hv => (extend_agrees μ _ (by simp [hv])).symm),
+      ITerm.ren_congr ρ (extend ρ (t.atoms ++ u.atoms)) μ (extend μ (t.vars ++ u.vars)) u
+        (fun a ha => (extend_agrees ρ _ (by simp [ha])).symm)
+        (fun v hv => (extend_agrees μ _ (by simp [hv])).symm)]
+    exact ITerm.unify_ren _ _ (extend_injective ρ _ hρ) (extend_injective μ _ hμ) fuel t u []
+  refine ⟨by rw [key]; simp, _, _, fun a ha => extend_agrees ρ _ ha, fun v hv => extend_agrees μ _ hv, key⟩
+
 /-- Go decides identity of atoms by `==` on ids, every model in this framework (and ISO) by
     equality of names.  As long as the naming is injective on the atoms involved — which
     `C14_atom_table_linearizable` guarantees for every atom obtained from `NewAtom`, whatever other
@@ -179,8 +202,8 @@ theorem C14_id_equality_is_name_equality (nm : Nat → String) (t u : ITerm)
 
 /-- **C14_answers_unchanged** (the three theorems combined).  Whatever the other interpreters do
     to the shared state — any number of them, any interleaving — the ids client `c` holds differ
-    from the ids it would hold had it run ALONE only by renamings under which identity, order and
-    canonical answers of every term built from them are the same. -/
+    from the ids it would hold had it run ALONE only by renamings under which identity, order,
+    unifiability and canonical answers of every term built from them are the same. -/
 theorem C14_answers_unchanged (σ₀ : State) (h₀ : TableInv σ₀) (sched : Schedule) (c : Nat)
     (hwf : learnedOnly σ₀.names.length [] (view c (exec σ₀ sched)) = true) :
     ∃ ρ μ : Nat → Nat,
@@ -192,7 +215,8 @@ theorem C14_answers_unchanged (σ₀ : State) (h₀ : TableInv σ₀) (sched : S
         ITerm.cmp (nameFn (final σ₀ (soloSched ρ c (view c (exec σ₀ sched))))) (t.ren ρ μ) (u.ren ρ μ)
           = ITerm.cmp (nameFn (final σ₀ sched)) t u ∧
         (t.ren ρ μ).answer (nameFn (final σ₀ (soloSched ρ c (view c (exec σ₀ sched)))))
-          = t.answer (nameFn (final σ₀ sched)) := by
+          = t.answer (nameFn (final σ₀ sched)) ∧
+        (∀ fuel, (ITerm.unify fuel (t.ren ρ μ) (u.ren ρ μ) []).isSome = (ITerm.unify fuel t u []).isSome) := by
   obtain ⟨ρ, μ, _, hinj, hname, hmono, hsim⟩ := C14_view_as_alone σ₀ h₀ sched c hwf
   refine ⟨ρ, μ, hsim, ?_⟩
   intro t u hat hvt
@@ -201,7 +225,13 @@ theorem C14_answers_unchanged (σ₀ : State) (h₀ : TableInv σ₀) (sched : S
     (fun a ha => by simp only [nameFn, hname a (hat a ha)])
     (fun a ha b hb => hinj a (hat a ha) b (hat b hb))
     (fun v hv w hw => hmono v (hvt v hv) w (hvt w hw))
-  exact ⟨this.1, this.2.1, this.2.2.1⟩
+  refine ⟨this.1, this.2.1, this.2.2.1, fun fuel => ?_⟩
+  refine (C14_unify_parametric ρ μ fuel t u (fun a ha b hb => hinj a (hat a ha) b (hat b hb)) ?_).1
+  intro v hv w hw h
+  rcases Nat.lt_trichotomy v w with hlt | heq | hgt
+  · have := hmono v (hvt v hv) w (hvt w hw) hlt; omega
+  · exact heq
+  · have := hmono w (hvt w hw) v (hvt v hv) hgt; omega
 
 /-! ### regenerated facts: the assumptions of the model, re-read from the source on every run
 
@@ -364,5 +394,16 @@ example :
   decide +kernel
 
 example : TableInv empty := inv_empty
+
+/-- `f(X, foo) = f(bar, Y)` with `foo ↦ base+0, bar ↦ base+1` and with the ids swapped and the
+    variables shifted: both unify, with corresponding solutions -/
+example :
+    let t := ITerm.app (base + 2) (.cons (.var 1) (.cons (.atom (base + 0)) .nil))
+    let u := ITerm.app (base + 2) (.cons (.atom (base + 1)) (.cons (.var 2) .nil))
+    let ρ := fun a => if a = base + 0 then base + 1 else if a = base + 1 then base + 0 else a
+    let μ := fun v => v + 10
+    ITerm.unify 5 t u [] = some [(2, .atom (base + 0)), (1, .atom (base + 1))] ∧
+    ITerm.unify 5 (t.ren ρ μ) (u.ren ρ μ) [] = some [(12, .atom (base + 1)), (11, .atom (base + 0))] := by
+  decide +kernel
 
 end PrologVerif.C14
